@@ -420,12 +420,19 @@ func (eng *Engine) loadGlobal(fr *Frame, st *State, g *ssa.Global, a *Addr) *Ter
 		eng.evalInit(g.Pkg)
 		if gi.known {
 			if gi.bigval != nil {
+				fc.usedConsts[gi.term] = true
 				fc.assume(True, And(Op(">", SBool, gi.term, IntLit64(0)), Op("<=", SBool, gi.term, fc.entry.alloc)))
 			}
 			return gi.term
 		}
 		// immutable but unknown: a fixed constant per global
+		if os.Getenv("GOVC_DEBUG") != "" {
+			fmt.Fprintf(os.Stderr, "global %s.%s: immutable, initial value not computed\n", g.Pkg.Pkg.Path(), g.Name())
+		}
 		t := Const("gconst!"+sanitize(g.Pkg.Pkg.Path()+"."+g.Name()), a.csort)
+		if a.csort == SRef {
+			fc.assume(True, And(Op(">=", SBool, t, IntLit64(0)), Op("<=", SBool, t, fc.entry.alloc)))
+		}
 		return t
 	}
 	return fc.load(st, a)
@@ -503,7 +510,9 @@ func (eng *Engine) evalInit(p *ssa.Package) {
 				gi.term = MkIface(v.args[0], Const("gerr!"+sanitize(p.Pkg.Path()+"."+g.Name()), SRef))
 			}
 		default:
-			if v.IsLit() {
+			// plain values only: a reference computed by the initialiser is an artefact of
+			// its allocation numbering and must not leak as a literal
+			if v.IsLit() && (v.sort.IsBV() || v.sort == SBool) {
 				gi.known = true
 				gi.term = v
 			}
@@ -519,5 +528,5 @@ func (fr *Frame) execInit(st *State) *State {
 
 func (eng *Engine) newFuncCtx(name string) *FuncCtx {
 	return &FuncCtx{eng: eng, fn: name, heapSorts: map[string]Sort{}, notes: map[string]bool{}, inlined: map[string]bool{}, opaque: map[string]bool{},
-		usedCtr: map[string]bool{}, trusted: map[string]bool{}, siteN: map[string]int{}, usedConsts: map[*Term]bool{}}
+		usedCtr: map[string]bool{}, trusted: map[string]bool{}, siteN: map[string]int{}, usedConsts: map[*Term]bool{}, closed: map[string]bool{}, safeAssump: map[int]bool{}}
 }
